@@ -10,7 +10,7 @@ from ..index import AnalysisError, dotted_chain, norm, unparse, walk_no_nested, 
 from ..serial import Registry
 from ..fieldflow import base_field
 from ..cfg import CFG
-from ..util import calls_in, call_name, where, parent_map, returns_of
+from ..util import calls_in, call_name, where, parent_map, returns_of, enclosing
 from .. import props
 
 props.prop(
@@ -89,6 +89,7 @@ def run(ctx):
     ctx.guard(rule_d, ctx, ix, reg, classes)
     ctx.guard(rule_e, ctx, ix, reg, classes)
     ctx.guard(rule_f, ctx, ix)
+    ctx.guard(rule_g, ctx, ix)
 
 
 # ---------------------------------------------------------------------------------------
@@ -502,3 +503,73 @@ def rule_f(ctx, ix):
     ctx.ob(R, f.construct, 'the working-set entry is released in finally', ok,
            detail='GlueUnSerializer.object does not release the working-set entry in a finally block: after a failed '
                   'load every retry reports a circular reference', where=f.where)
+
+
+def _uncond_in_loop(pm, call, loop):
+    from ..util import guard_chain
+    return not [g for g, br in guard_chain(pm, call, loop) if isinstance(g, (ast.If, ast.Try))]
+
+
+def rule_g(ctx, ix):
+    """Savers list every element of the collections they save, in order; loaders put every saved element back, unconditionally."""
+    R = 'C02.g'
+    ctx.describe(R, 'collection savers/loaders cover every element, in order, unconditionally', floor=10)
+    sd = ix.func('glue.core.state._save_data')
+    obj = sd.params[0]
+    txt = unparse(sd.node)
+    ok = ('for c in %s._components' % obj) in txt and 'components=' in txt.replace(' ', '') or "['components']" in txt
+    ctx.idiom(R, sd.construct + ' components', 'every component is saved, in the dataset\'s own order',
+              accepted=('for c in %s._components' % obj) in txt, absent='components' not in txt or 'sorted(' in txt or 'main_components' in txt,
+              detail_absent='_save_data no longer lists the components by iterating data._components (order or completeness is lost)',
+              shape='components=...', where=sd.where)
+    ctx.idiom(R, sd.construct + ' subsets', 'every subset is saved', accepted=('for s in %s.subsets' % obj) in txt,
+              absent='subsets' not in txt, detail_absent='_save_data no longer lists every subset of the dataset', shape='subsets=...',
+              where=sd.where)
+    ld = ix.func('glue.core.state._load_data')
+    rec = ld.params[0]
+    pm = parent_map(ld.node)
+    adds = [c for c in calls_in(ld.node) if call_name(c) == 'add_component']
+    ok = False
+    for c in adds:
+        from ..util import enclosing
+        lp = enclosing(pm, c, (ast.For,))
+        if lp is not None and _uncond_in_loop(pm, c, lp) and len(c.args) == 2:
+            src = unparse(lp.iter)
+            ok = 'comps' in src
+    ctx.ob(R, ld.construct + ' components', 'every saved component is added back, unconditionally, in saved order', ok,
+           detail='_load_data no longer adds every saved component back (add_component is conditional or the loop does not run over '
+                  'the saved list)', where=ld.where)
+    comps = [st for st in walk_no_nested(ld.node) if isinstance(st, ast.Assign) and unparse(st.targets[0]) == 'comps']
+    ok = bool(comps) and ("%s['components']" % rec) in unparse(comps[0].value) and 'sorted' not in unparse(comps[0].value) \
+        and 'reversed' not in unparse(comps[0].value)
+    ctx.ob(R, ld.construct + ' order', 'the saved component list is walked in its saved order', ok,
+           detail='_load_data builds the component list as %s' % (unparse(comps[0].value) if comps else None), where=ld.where)
+    subs = [c for c in calls_in(ld.node) if call_name(c) == 'add_subset']
+    ok = False
+    for c in subs:
+        from ..util import enclosing
+        lp = enclosing(pm, c, (ast.For,))
+        ok = lp is not None and unparse(lp.iter) == "%s['subsets']" % rec and _uncond_in_loop(pm, c, lp)
+    ctx.ob(R, ld.construct + ' subsets', 'every saved subset is attached again', ok,
+           detail='_load_data no longer re-attaches every saved subset', where=ld.where)
+    sc = ix.func('glue.core.state._save_data_collection_4')
+    dc = sc.params[0]
+    t = unparse(sc.node).replace(' ', '')
+    for key, src, what in (('data', 'map(context.id,%s)' % dc, 'every dataset'), ('links', '%s.external_links' % dc, 'every external link'),
+                           ('groups', '%s.subset_groups' % dc, 'every subset group')):
+        ctx.idiom(R, sc.construct + ' ' + key, '%s of the collection is saved' % what, accepted=('%s=list(' % key) in t and src in t,
+                  absent=(key + '=') not in t, detail_absent='_save_data_collection_4 no longer saves %s (key %r)' % (what, key),
+                  shape=key, where=sc.where)
+    lc = ix.func('glue.core.state._load_data_collection_4')
+    rec = lc.params[0]
+    t = unparse(lc.node).replace(' ', '')
+    ctx.idiom(R, lc.construct + ' data', 'every saved dataset is put back into the collection',
+              accepted=("DataCollection(list(map(context.object,%s['data'])))" % rec) in t, absent=("%s['data']" % rec) not in t,
+              detail_absent='_load_data_collection_4 no longer builds the collection from rec[\'data\']', shape='DataCollection(...)', where=lc.where)
+    ctx.idiom(R, lc.construct + ' links', 'every saved link is set again', accepted=("forlinkin%s['links']" % rec) in t and 'set_links(links)' in t,
+              absent='set_links' not in t or ("%s['links']" % rec) not in t,
+              detail_absent='_load_data_collection_4 no longer restores the saved links through set_links', shape='links', where=lc.where)
+    ctx.idiom(R, lc.construct + ' groups', 'every saved subset group is restored and the group counter too',
+              accepted=("_subset_groups=list(map(context.object,%s['groups']))" % rec) in t and ("_sg_count=%s['subset_group_count']" % rec) in t,
+              absent=("%s['groups']" % rec) not in t or '_sg_count' not in t,
+              detail_absent='_load_data_collection_4 no longer restores the subset groups / the group counter', shape='groups', where=lc.where)
